@@ -252,7 +252,12 @@ class Run(object):
             self.env.clock.now += t._max_seconds + 1.0
             self.trace.append({'ev': 'Tick'})
         else:
-            self.env.clock.now += t._max_seconds / 4.0
+            # time passes WITHOUT reaching the ARTIM limit, however many times this is repeated
+            dt = t._max_seconds / 4.0
+            if t._start_time is not None:
+                remaining = t._max_seconds - (self.env.clock.now - t._start_time)
+                dt = max(0.0, min(dt, remaining / 2.0))
+            self.env.clock.now += dt
             self.trace.append({'ev': 'Tock'})
 
     # -- one iteration of the real loop
